@@ -25,7 +25,7 @@ class C16(diffprop.Spec):
                   "encoding/json's depth limit (10000) and Go struct destinations (DisallowUnknownFields has no effect on maps) are outside the model.")
     rule = ("cases cycle through: (1) object tree -> HandleWrite bytes vs model encoder, then the implementation's own write->read round trip, half of them through LengthFieldCodec; "
             "(2,3) valid text re-spaced / re-escaped (\\uXXXX, surrogate pairs, \\/), 1/6 with a repeated key, random trailing bytes, random carrier type; (4) malformed: fixed list or "
-            "truncation / insertion / deletion on valid text; (5) text codec on 0..70000 random bytes incl. NUL, newline, 0xff; useNumber 3/4, DisallowUnknownFields 1/2; one JSON codec instance per configuration serves all frames of the run (replaced with probability 1/50)")
+            "truncation / insertion / deletion on valid text; (5) text codec on 0..70000 random bytes incl. NUL, newline, 0xff; useNumber 3/4, DisallowUnknownFields 1/2; one JSON codec instance per configuration serves all frames of the run (replaced with probability 1/50); the text codec writes into a length-field (4- or 2-byte) or varint codec which receives the very message the text codec emits; 1/3 of the encoder cases encode two objects through one codec before reading either frame")
     assumptions = ("frames are valid UTF-8",)
     modelled_not_verified = ("encoding/json (validated by the tie on every generated case)", "UTF-8")
 
